@@ -7,6 +7,7 @@ void hx_init(struct hx *h, hwloc_topology_t t, struct hv_rng *r)
   h->t = t; h->r = r; h->allow_grouping = 1; h->allow_bad_args = 1;
 }
 
+int hx_whitespace_controls;
 void hx_rand_string(struct hv_rng *r, char *buf, size_t maxlen, int allow_empty)
 {
   static const char special[] = "<>&\"' =/\\;:#%[](){}|~^`@!?*+-_.,";
@@ -16,6 +17,9 @@ void hx_rand_string(struct hv_rng *r, char *buf, size_t maxlen, int allow_empty)
     if (hv_chance(r, 1, 4)) buf[i] = special[hv_below(r, sizeof special - 1)];
     else buf[i] = (char)("abcXYZ019"[hv_below(r, 9)]);
   }
+  /* TAB, LF and CR are escaped as character references by both exporters (the repository's own xmlbuffer test relies on it): only
+   * the monitors that opt in (C05) draw them, placed after another special character as well as first */
+  if (hx_whitespace_controls && n > 1 && hv_chance(r, 1, 3)) { unsigned k = 1 + (unsigned)hv_below(r, 3); for (unsigned q = 0; q < k; q++) buf[hv_below(r, n)] = "\t\n\r"[hv_below(r, 3)]; }
   /* leading/trailing spaces are legal but worth trying */
   if (n > 2 && hv_chance(r, 1, 10)) buf[0] = ' ';
   buf[n] = 0;
